@@ -341,6 +341,18 @@ int bn_is_prime_solov(const bn_t a) {
 	bn_null(t1);
 	bn_null(t2);
 
+	/* No witness 2 <= t0 <= a - 2 exists for a < 4, and even numbers would
+	 * only make the modular exponentiation fail. */
+	if (bn_cmp_dig(a, 1) != RLC_GT) {
+		return 0;
+	}
+	if (bn_cmp_dig(a, 3) != RLC_GT) {
+		return 1;
+	}
+	if (bn_is_even(a)) {
+		return 0;
+	}
+
 	result = 1;
 
 	RLC_TRY {
